@@ -227,6 +227,8 @@ class Target:
                                           f'signature {f.printer.signature}')
         self.fns_present = present
         harness = self.harness
+        if callable(harness):
+            harness = harness()      # generated from /repo's AST (e.g. one block per function found), like callable `fns`
         if harness is None:
             if enforced_printer is None:
                 raise ExtractionError(f'{self.name}: no harness and no enforced function')
